@@ -10,7 +10,7 @@ git reset -q 2>/dev/null
 if ! go build ./... 2>/tmp/mutbuild.log; then echo "MUTANT-DOES-NOT-BUILD"; git checkout -q -- .; exit 3; fi
 cd /verif
 for p in "$@"; do
-  out=$(bin/govc check -p $p 2>&1); rc=$?
+  out=$(GOVC_EVIDENCE_DIR=/tmp/govc-mutant-evidence bin/govc check -p $p 2>&1); rc=$?
   echo "== $p rc=$rc"
   echo "$out" | grep -E "^VIOLATION|engine error|^$p:" | cut -c1-300
 done
